@@ -350,13 +350,22 @@ def total_area(by_dir):
 
 
 def quad_with_taken_diagonal(faces, targets=None):
-    """indices of the quads (among targets) one of whose diagonals is already a side of a face of the mesh"""
+    """indices of the quads (among targets) one of whose diagonals joins two vertices that are already joined by a
+    side of a face of the mesh, or that another quad to be split could join as well: a rule that fixes the
+    diagonal from the position in the face alone can then produce an edge with more than two faces"""
     sides = F.undirected_edges(faces)
+    quads = [i for i, f in enumerate(faces) if len(f) == 4 and (targets is None or i in targets)]
+    diag = {}
+    for i in quads:
+        f = faces[i]
+        for d in (tuple(sorted((f[0], f[2]))), tuple(sorted((f[1], f[3])))):
+            diag[d] = diag.get(d, 0) + 1
     out = []
-    for i, f in enumerate(faces):
-        if len(f) == 4 and (targets is None or i in targets):
-            if tuple(sorted((f[0], f[2]))) in sides or tuple(sorted((f[1], f[3]))) in sides:
-                out.append(i)
+    for i in quads:
+        f = faces[i]
+        ds = (tuple(sorted((f[0], f[2]))), tuple(sorted((f[1], f[3]))))
+        if any(d in sides or diag[d] > 1 for d in ds):
+            out.append(i)
     return out
 
 
